@@ -1036,6 +1036,42 @@ func c07Directives(thorough bool) []c07Suite {
 	return out
 }
 
+// c07MultiValueDirectives: suites that list two or three values on an axis
+// (so the axis stays open although the suite says something about it), in
+// every combination with the other axes being unrestricted, pinned or
+// multi-valued as well. Compression lists: both values in every universe
+// ({identity, gzip}, either order), one listed value absent from the quick
+// universe ({gzip, br}), {identity, zstd} (both in the thorough universe and in
+// the unary-only-zstd config, one of them elsewhere) and three values. These are
+// in both tiers: the full directive product of the quick tier lists at most one
+// compression.
+func c07MultiValueDirectives() []c07Suite {
+	protocols := [][]int32{nil, {1}, {1, 2}, {1, 2, 3}}
+	versions := [][]int32{nil, {2}, {1, 2}, {1, 2, 3}}
+	codecs := [][]int32{nil, {2}, {1, 2}}
+	compressions := [][]int32{{1, 2}, {2, 3}, {1, 4}, {2, 1}, {1, 2, 4}}
+	flags := []c07Flags{{}, {TLS: true}, {Limit: true}, {TLS: true, Certs: true}}
+	var out []c07Suite
+	for _, fl := range flags {
+		for _, z := range compressions {
+			for _, c := range codecs {
+				for _, v := range versions {
+					for _, p := range protocols {
+						for _, m := range []int32{0, 1, 2} {
+							out = append(out, c07Suite{
+								File: "suite.yaml", Name: "Suite Under Test", Mode: m,
+								Protocols: p, Versions: v, Codecs: c, Compressions: z,
+								TLS: fl.TLS, Certs: fl.Certs, Get: fl.Get, Limit: fl.Limit,
+							})
+						}
+					}
+				}
+			}
+		}
+	}
+	return out
+}
+
 // c07CaseSets: 1-3 test cases over the five stream types, with and without an
 // explicit service/method pair; names follow docs/authoring_test_cases.md.
 func c07CaseSets(thorough bool) [][]c07TC {
@@ -1208,6 +1244,8 @@ type c07Plan struct {
 	twinSets     []*c07CfgSet
 	twinCaseSets [][]c07TC
 	prefill      []c07PrefillBlock // phase D
+	multi        []c07Suite        // phase E: multi-valued relevant_* lists
+	multiCases   [][]c07TC
 }
 
 // c07PrefillBlock: test-case sets with pre-filled runner-owned fields, the
@@ -1254,6 +1292,8 @@ func c07MakePlan(t *testing.T, thorough bool) *c07Plan {
 		plan.twinBase = append(plan.twinBase, d)
 	}
 	plan.twinSets = []*c07CfgSet{plan.named[0], named[3]}
+	plan.multi = c07MultiValueDirectives()
+	plan.multiCases = [][]c07TC{small[0], small[1]}
 	plan.twinCaseSets = [][]c07TC{small[0], small[1]}
 	// the two mixed sets: every directive combination, whole reduced universe and default config;
 	// thorough, one set per template on all stream types: the quick directive list, whole universe
@@ -1289,7 +1329,7 @@ func c07Report(r *rep.Report, in *c07Input, res c07Result) {
 func TestVerifC07(t *testing.T) {
 	r := rep.New("c07-enum")
 	defer r.Write()
-	r.Rule = "odometer over suite directives (mode x relevant protocols/versions/codecs/compressions subsets x the 16 relies-on combinations) x test-case sets (1-3 tests, 5 stream types, default/explicit service+method) x config-case sets (whole reduced universe, sets parsed from shipped/typical configs, every singleton of a reduced universe) x 3 run modes, plus two-suite loads whose twin differs in name and/or mode, plus every directive combination with test-case sets that pre-fill the runner-owned request fields (9 templates: client_tls_creds, server_tls_cert, http_version/protocol/codec/compression/message_receive_limit at low, middle and high values) against the universe and the default config; every element is distinct by construction; it is non-trivial when the reference iff admits at least one permutation (the others check that nothing is produced)"
+	r.Rule = "odometer over suite directives (mode x relevant protocols/versions/codecs/compressions subsets x the 16 relies-on combinations) x test-case sets (1-3 tests, 5 stream types, default/explicit service+method) x config-case sets (whole reduced universe, sets parsed from shipped/typical configs, every singleton of a reduced universe) x 3 run modes, plus two-suite loads whose twin differs in name and/or mode, plus every directive combination with test-case sets that pre-fill the runner-owned request fields (9 templates: client_tls_creds, server_tls_cert, http_version/protocol/codec/compression/message_receive_limit at low, middle and high values) against the universe and the default config, plus suites listing two or three values on an axis (compressions {identity,gzip}, {gzip,identity}, {gzip,br}, {identity,zstd}, {identity,gzip,zstd} x 4 protocol x 4 version x 3 codec selections x 4 relies-on combinations) against the universe and the named sets; every element is distinct by construction; it is non-trivial when the reference iff admits at least one permutation (the others check that nothing is produced)"
 	thorough := rep.Thorough()
 	plan := c07MakePlan(t, thorough)
 
@@ -1348,6 +1388,7 @@ func TestVerifC07(t *testing.T) {
 		suitesD += len(block.directives) * len(block.cases)
 	}
 	r.Extra["suites_phaseD"] = suitesD
+	r.Extra["suites_phaseE"] = len(plan.multi) * len(plan.multiCases)
 	r.Extra["prefill_templates"] = len(c07Prefills) - 1
 	sizes := map[string]int{}
 	for _, s := range plan.named {
@@ -1466,6 +1507,37 @@ phaseD:
 		}
 	}
 	r.Count("phaseD ms (this shard summed)", time.Since(startD).Milliseconds())
+
+	// Phase E: suites listing two or three values on an axis (compressions in
+	// particular) against the whole universe and the named sets.
+	startE := time.Now()
+phaseE:
+	for ci, cases := range plan.multiCases {
+		for di := range plan.multi {
+			k++
+			if !r.Mine(k) {
+				continue
+			}
+			if expired() {
+				break phaseE
+			}
+			r.Count("phaseE suites done", 1)
+			suite := plan.multi[di]
+			suite.Cases = cases
+			for _, set := range plan.named {
+				for _, mode := range runModes {
+					in := c07Input{Suites: []c07Suite{suite}, CfgSet: set.Label, Cases: nil, RunMode: mode}
+					res := c07Evaluate(&in, set, 3, false)
+					c07Report(r, &in, res)
+					r.Count("phaseE evaluations", 1)
+				}
+			}
+			if di == (len(plan.multi)/3)*(ci+1) {
+				r.Sample(c07Input{Suites: []c07Suite{suite}, CfgSet: plan.named[0].Label, RunMode: runModes[ci%3]})
+			}
+		}
+	}
+	r.Count("phaseE ms (this shard summed)", time.Since(startE).Milliseconds())
 
 	// Phase A: every suite against the whole universe and the named sets.
 	startA := time.Now()
